@@ -6,4 +6,4 @@ mkdir -p $B
 cp /verif/ocaml/*.ml $B/
 cd $B
 ocamlfind ocamlopt -O2 -w -a -c model.mli model.ml 2>/dev/null || ocamlfind ocamlopt -w -a -c model.mli model.ml
-ocamlfind ocamlopt -w -a -o driver model.cmx common.ml poschk.ml iterchk.ml textchk.ml miscchk.ml gamechk.ml streams.ml driver.ml
+ocamlfind ocamlopt -w -a -o driver model.cmx common.ml poschk.ml iterchk.ml textchk.ml miscchk.ml gamechk.ml extrachk.ml streams.ml driver.ml
